@@ -48,6 +48,16 @@ func runC02(t *simrt.Tape, o Opts) Outcome {
 				call2 = t.Choose(18, "fault2.call")
 				kind2 = sweepKinds[t.Choose(len(sweepKinds), "fault2.kind")]
 			}
+			if t.Choose(2, "slow-calls") == 1 {
+				// slow metastore/KMS calls: long enough for the creation-stamp window, the revoke-check
+				// interval or a key lifetime to pass while a call is in flight
+				w.Faults.Kinds["latency"] = true
+				prec := pol.Precision
+				if prec <= 0 {
+					prec = time.Second
+				}
+				w.LatencyMenu = []time.Duration{time.Second, prec, prec + time.Second, pol.Revoke + time.Second}
+			}
 		}
 		part := "a"
 		se := setupScenario(w, t, sc, pol, part)
